@@ -301,6 +301,10 @@ where
                     connection.send_quota += 1;
                 }
 
+                // The PUBLISH is never sent again once its PUBREC has arrived.
+                utils::linear_search_by_key(&session.retrasmit_queue, action_id)
+                    .and_then(|pos| session.retrasmit_queue.remove(pos));
+
                 if let Some((_, sender)) =
                     utils::linear_search_by_key(&session.awaiting_ack, action_id)
                         .and_then(|pos| session.awaiting_ack.remove(pos))
